@@ -61,16 +61,25 @@ def trimChain (h : Nat) : List Version → List Version
   | [] => []
   | v :: tl => v :: tl.takeWhile (fun w => decide (h ≤ w.creator))
 
+/-- the versions VACUUM considers alive: those whose creator is not aborted in the vacuum snapshot (the shipped pass looks at the
+    header's creator only) -/
+def liveVersions (V : VDefects) (s : Snapshot) (r : Row) : List Version :=
+  if V.vacuumDropsHorizonVersion then
+    (match r.versions with
+     | [] => []
+     | v :: tl => if s.aborted.contains v.creator then [] else v :: tl)
+  else r.versions.filter (fun v => !s.aborted.contains v.creator)
+
+/-- is the row deleted for VACUUM?  Specification: some deleter committed.  Shipped: some delete mark is set -/
+def deletedForVacuum (V : VDefects) (s : Snapshot) (r : Row) : Bool :=
+  if V.vacuumRemovesUncommittedDelete then !r.deleters.isEmpty else r.deleters.any s.cb
+
 /-- one row under VACUUM; `s` = snapshot of the vacuum transaction, `h` = horizon; `none` = the tuple is removed -/
 def Row.vacuum (V : VDefects) (s : Snapshot) (h : Nat) (r : Row) : Option Row :=
-  let vs := if V.vacuumDropsHorizonVersion then
-      (match r.versions with
-       | [] => []
-       | v :: tl => if s.aborted.contains v.creator then [] else v :: tl)
-    else r.versions.filter (fun v => !s.aborted.contains v.creator)
-  if vs.isEmpty then none
-  else if (if V.vacuumRemovesUncommittedDelete then !r.deleters.isEmpty else r.deleters.any s.cb) then none
-  else some { r with versions := trimChain h vs, deleters := r.deleters.filter (fun d => !s.aborted.contains d) }
+  if (liveVersions V s r).isEmpty then none
+  else if deletedForVacuum V s r then none
+  else some { r with versions := trimChain h (liveVersions V s r),
+                     deleters := r.deleters.filter (fun d => !s.aborted.contains d) }
 
 def vacuumRows (V : VDefects) (s : Snapshot) (h : Nat) (rows : List Row) : List Row := rows.filterMap (Row.vacuum V s h)
 
